@@ -159,6 +159,91 @@ theorem C13_share (m : Mode) (f : Fac) (S E : Int) (recs : List Rec) (hq : 0 < f
   rw [hlo, hhi] at h
   exact h
 
+/-- share clause as the float implementation can meet it: of the `g` days between two consecutive
+measurements the larger one (the earlier one when equal) receives `d` days with
+`⌊g·f⌋ ≤ d ≤ ⌈g·f⌉`, the other one the remaining `g − d` days -/
+def ShareWithin (f : Fac) : List Win → Prop
+  | w :: w' :: ws =>
+    (⌊((w'.date - w.date : Int) : ℚ) * f.ratio⌋
+        ≤ (if w'.rate ≤ w.rate then w.stop - w.date else w'.date - w'.start)
+      ∧ (if w'.rate ≤ w.rate then w.stop - w.date else w'.date - w'.start)
+        ≤ ⌈((w'.date - w.date : Int) : ℚ) * f.ratio⌉)
+    ∧ (w.stop - w.date) + (w'.date - w'.start) = w'.date - w.date
+    ∧ ShareWithin f (w' :: ws)
+  | _ => True
+
+/-- a rounding is `f`-bounded when what the code obtains for `floor(g * factor)` and
+`ceil(g * factor)` lies between the exact `⌊g·f⌋` and `⌈g·f⌉` (true of IEEE doubles because
+rounding to nearest is monotone and whole numbers are representable; checked on the float grid and
+on random doubles by the correspondence, gap 0..2000) -/
+def BoundedBy (f : Fac) (ρ : Rounding) : Prop :=
+  ∀ g : Int, 0 ≤ g →
+    (⌊(g : ℚ) * f.ratio⌋ ≤ ρ.lo g ∧ ρ.lo g ≤ ⌈(g : ℚ) * f.ratio⌉) ∧
+    (⌊(g : ℚ) * f.ratio⌋ ≤ ρ.hi g ∧ ρ.hi g ≤ ⌈(g : ℚ) * f.ratio⌉)
+
+private theorem shareWithin_cons2 (f : Fac) (w w' : Win) (ws : List Win) :
+    ShareWithin f (w :: w' :: ws) ↔
+      ((⌊((w'.date - w.date : Int) : ℚ) * f.ratio⌋
+          ≤ (if w'.rate ≤ w.rate then w.stop - w.date else w'.date - w'.start)
+        ∧ (if w'.rate ≤ w.rate then w.stop - w.date else w'.date - w'.start)
+          ≤ ⌈((w'.date - w.date : Int) : ℚ) * f.ratio⌉)
+      ∧ (w.stop - w.date) + (w'.date - w'.start) = w'.date - w.date
+      ∧ ShareWithin f (w' :: ws)) := Iff.rfl
+
+private theorem shareWithin_winsFrom (f : Fac) (ρ : Rounding) (hb : BoundedBy f ρ) :
+    ∀ (rows : List Row) (prev : Option Row), Sorted rows → ShareWithin f (winsFrom ρ prev rows) := by
+  intro rows
+  induction rows with
+  | nil => intro prev _; simp [winsFrom, ShareWithin]
+  | cons x rest ih =>
+    intro prev hs
+    cases rest with
+    | nil => simp [winsFrom, ShareWithin]
+    | cons z zs =>
+      have hx := List.pairwise_cons.mp hs
+      have hxz : x.date ≤ z.date := hx.1 z (by simp)
+      have ihz := ih (some x) hx.2
+      have e := winsFrom_cons ρ (some x) z zs
+      rw [e] at ihz
+      rw [winsFrom_cons, e]
+      have hg := hb (z.date - x.date) (by omega)
+      refine (shareWithin_cons2 _ _ _ _).mpr ⟨?_, ?_, ihz⟩
+      · simp only [endOff, endOffset, startOff, startOffset, prevCond_eq_not_nextCond]
+        by_cases h : z.rate ≤ x.rate
+        · have hn : nextCond x.rate z.rate = false := by
+            unfold nextCond; simp; omega
+          simp only [h, hn, if_true, Bool.false_eq_true, if_false]
+          have : x.date + ρ.lo (z.date - x.date) - x.date = ρ.lo (z.date - x.date) := by omega
+          rw [this]
+          exact hg.1
+        · have hn : nextCond x.rate z.rate = true := by
+            unfold nextCond; simp; omega
+          simp only [h, hn, if_false, Bool.not_true, Bool.false_eq_true]
+          have : z.date - (z.date - ρ.hi (z.date - x.date)) = ρ.hi (z.date - x.date) := by omega
+          rw [this]
+          exact hg.2
+      · have := offsets_meet ρ (z.date - x.date) x.rate z.rate
+        simp only [endOff, startOff]
+        omega
+
+/-- share for the float implementation: for every rounding that stays between `⌊g·f⌋` and
+`⌈g·f⌉`, the larger bounding measurement of every interval receives `⌊g·f⌋` or `⌈g·f⌉` days and the
+smaller one the rest -/
+theorem C13_share_bounded_rounding (m : Mode) (f : Fac) (ρ : Rounding) (hb : BoundedBy f ρ)
+    (S E : Int) (recs : List Rec) :
+    ∀ kw ∈ report m ρ S E recs, ShareWithin f kw.2 := by
+  intro kw hkw
+  unfold report at hkw
+  obtain ⟨k, _, rfl⟩ := List.mem_map.mp hkw
+  exact shareWithin_winsFrom f ρ hb _ none (sorted_sortByDate _)
+
+/-- the exact rounding is `f`-bounded (so the theorem above is not vacuous) -/
+theorem C13_exact_rounding_bounded (f : Fac) (hq : 0 < f.q) : BoundedBy f (exactRounding f) := by
+  intro g _
+  rw [exact_lo_eq_floor f hq g, exact_hi_eq_ceil f hq g]
+  have := Int.floor_le_ceil ((g : ℚ) * f.ratio)
+  omega
+
 /-- volume: `volNum / (10·scale) = (rate/scale) · days · 864/10` for every window -/
 theorem C13_volume (scale : Nat) (hs : 0 < scale) (ws : List Win) : VolumeOK scale ws := by
   intro w _
@@ -203,6 +288,40 @@ theorem C13 : C13_statement := by
   intro kw hkw
   exact ⟨C13_tiling m f S E recs hf hSE hb kw hkw, C13_share m f S E recs hf.1 kw hkw,
     C13_volume scale hs kw.2⟩
+
+/-! ### which days the windows cover (the end-date reading)
+
+A window `[start, stop)` carries `stop − start` days of volume, so the windows of a group cover the
+days `S, …, E − 1`: `E − S` days.  The simulator runs through the end date inclusive
+(`TimeCounter.at_simulation_end`: `current_date > end_date`), i.e. `E − S + 1` days: the last
+simulated day lies in no estimation window (known finding F7c). -/
+
+/-- the windows of a tiling cover exactly `E − S` days -/
+theorem C13_days_covered (S E : Int) (ws : List Win) (h : Tiles S E ws) :
+    (ws.map Win.days).sum = E - S := by
+  induction ws generalizing S with
+  | nil => simp only [Tiles] at h; simp; omega
+  | cons w ws ih =>
+    obtain ⟨h1, _, h3⟩ := h
+    have := ih w.stop h3
+    simp only [List.map_cons, List.sum_cons, Win.days]
+    omega
+
+/-- the reading "the windows partition the simulated days `S … E` inclusive" -/
+def C13_inclusive_statement : Prop :=
+  ∀ (m : Mode) (f : Fac) (S E : Int) (recs : List Rec),
+    f.Valid → S ≤ E → (∀ r ∈ recs, S ≤ r.date ∧ r.date ≤ E) →
+    ∀ kw ∈ report m (exactRounding f) S E recs, Tiles S (E + 1) kw.2
+
+/-- … is false of the code: the last window ends on the end date, the last simulated day is
+covered by no window (witness: one survey on day 10 of the period 0..30, f = 1/2) -/
+theorem C13_inclusive_counterexample : ¬ C13_inclusive_statement := by
+  intro h
+  have := h .site { p := 1, q := 2 } 0 30
+    [{ site := 1, eqg := none, comp := none, date := 10, rate := 8 }]
+    (by decide) (by decide) (by decide) _ (List.mem_cons_self ..)
+  revert this
+  decide +kernel
 
 /-- non-vacuity: the witness of the defect that was repaired (f = 7/10, surveys on day 10 and 20 of
 a 30-day period, rates 1 and 2 g/s): the hypotheses hold and the windows are
